@@ -346,6 +346,16 @@ pub fn parse_junit(text: &str) -> Result<Vec<JunitCase>, String> {
                 let is_empty = false;
                 let _ = is_empty;
                 let name = String::from_utf8_lossy(e.name().as_ref()).to_string();
+                for a in e.attributes() {
+                    match a {
+                        Err(x) => return Err(format!("XML error in an attribute of <{}>: {}", name, x)),
+                        Ok(a) => {
+                            if let Err(x) = a.unescape_value() {
+                                return Err(format!("XML error in an attribute value of <{}>: {}", name, x));
+                            }
+                        }
+                    }
+                }
                 match name.as_str() {
                     "testsuite" => suite = attr(&e, "name").unwrap_or_default(),
                     "testcase" => {
@@ -381,6 +391,12 @@ pub fn parse_junit(text: &str) -> Result<Vec<JunitCase>, String> {
                 depth += 1;
             }
             Ok(Event::End(_)) => depth -= 1,
+            // character data must be well-formed too: a bare `&` or `<` is not XML
+            Ok(Event::Text(t)) => {
+                if let Err(e) = t.unescape() {
+                    return Err(format!("XML error in character data: {}", e));
+                }
+            }
             Ok(_) => {}
         }
     }
